@@ -86,6 +86,50 @@ PROPS = {
         "floors": None,
         "assumptions": COMMON_ASSUMPTIONS + ['the solo run maps events addressed to neighbours to an unknown id; blocking state and time are shared by construction'],
     },
+    "C06": {
+        "workers": ['c06'],
+        "rule": 'a case = one validated probability vector (1-8 targets incl. END/SIGNAL; dyadic at 2^-23, equal shares, coarse dyadic, f32 resolution limits, random) for which State::sample_state is called with every one of the 2^23 values of the uniform draw, plus ~300 framework probes around every outcome boundary; every case is non-trivial; distinct by the f32 bit patterns',
+        "floors": None,
+        "assumptions": COMMON_ASSUMPTIONS + ['the uniform f32 draw uses the top 23 bits of one 32-bit word (checked: low 9 bits never change the outcome, one word per sample)', 'expected shares are exact rationals from the f32 bit patterns: equality for vectors on the 2^-23 grid, otherwise |count - p*2^23| <= 2 + k/2'],
+        "exhaustive_note": "each vector: the whole 2^23 draw space is enumerated",
+    },
+    "C14": {
+        "workers": ['c14'],
+        "rule": 'a case = a generated time-sorted trace (1-120 packets, gaps from 0 to 1 s, bursts of identical stamps) x network delay x {sim, sim_advanced} x output filters, no machines; non-trivial when the trace has at least 2 packets; distinct by hash of trace, delay, filters and entry point',
+        "floors": None,
+        "assumptions": COMMON_ASSUMPTIONS + ['no integration delays; traces are time-sorted; network delay <= 1 s', 'event times are compared as exact nanosecond offsets from the earliest trace event', 'packet rate limit derived from the trace (pps: None)'],
+    },
+    "C15": {
+        "workers": ['c15'],
+        "rule": 'a case = trace x delay x optional pps x 1-3 generated machines on client and/or server (all action kinds and flag combinations, small timeouts/durations, counters, signals) x fractions x seed x continue flag, bounded by max_sim_iterations; non-trivial when the peer received padding or a replace re-labelled a queued normal packet; distinct by hash of trace, delay, seed and machines',
+        "floors": None,
+        "assumptions": COMMON_ASSUMPTIONS + ['no integration delays; traces are time-sorted; network delay <= 1 s', 'event times are compared as exact nanosecond offsets from the earliest trace event'],
+    },
+    "C16": {
+        "workers": ['c16'],
+        "rule": 'a case = trace x delay x machines tuned to blocking (generated, and in half of the cases hand-shaped machines with timeouts/durations from {0,1,2,5,10,100,1000,5000} us so that ties, overlaps and zero durations occur) x seed, bounded by max_sim_iterations; the merged timeline (returned events, actions logged at the framework/simulator boundary, timer expiries logged by the hook) is checked offline; non-trivial when the run exercised blocking (blocks started and tunnel-sent packets judged during blocking); distinct by hash of trace, delay, seed and machines',
+        "floors": None,
+        "assumptions": COMMON_ASSUMPTIONS + ['no integration delays; traces are time-sorted; network delay <= 1 s', 'event times are compared as exact nanosecond offsets from the earliest trace event', 'events with equal stamps are concurrent: membership in a blocking interval is decided by trace order, expiry by stamps with the half-open interval [begin, until)', "the hook's fire log only disambiguates same-instant firings; each entry is validated against the pending action / running timer computed from the boundary log"],
+    },
+    "C17": {
+        "workers": ['c17'],
+        "rule": 'a case = trace x delay x machines tuned to action timers (generated, and in half of the cases hand-shaped machines with timeouts/durations from {0,1,2,5,10,100,1000,5000} us so that ties, overlaps and zero durations occur) x seed, bounded by max_sim_iterations; the merged timeline (returned events, actions logged at the framework/simulator boundary, timer expiries logged by the hook) is checked offline; non-trivial when the run exercised action timers (fired actions reported and actions superseded); distinct by hash of trace, delay, seed and machines',
+        "floors": None,
+        "assumptions": COMMON_ASSUMPTIONS + ['no integration delays; traces are time-sorted; network delay <= 1 s', 'event times are compared as exact nanosecond offsets from the earliest trace event', 'events with equal stamps are concurrent: membership in a blocking interval is decided by trace order, expiry by stamps with the half-open interval [begin, until)', "the hook's fire log only disambiguates same-instant firings; each entry is validated against the pending action / running timer computed from the boundary log"],
+    },
+    "C18": {
+        "workers": ['c18'],
+        "rule": 'a case = trace x delay x machines tuned to internal timers (generated, and in half of the cases hand-shaped machines with timeouts/durations from {0,1,2,5,10,100,1000,5000} us so that ties, overlaps and zero durations occur) x seed, bounded by max_sim_iterations; the merged timeline (returned events, actions logged at the framework/simulator boundary, timer expiries logged by the hook) is checked offline; non-trivial when the run exercised internal timers (timers started and ended); distinct by hash of trace, delay, seed and machines',
+        "floors": None,
+        "assumptions": COMMON_ASSUMPTIONS + ['no integration delays; traces are time-sorted; network delay <= 1 s', 'event times are compared as exact nanosecond offsets from the earliest trace event', 'events with equal stamps are concurrent: membership in a blocking interval is decided by trace order, expiry by stamps with the half-open interval [begin, until)', "the hook's fire log only disambiguates same-instant firings; each entry is validated against the pending action / running timer computed from the boundary log"],
+    },
+    "C19": {
+        "workers": ['c19'],
+        "rule": 'a case = trace x delay x pps in {None,1,2,10,1e3,u32::MAX,2^32,2^33+7,usize::MAX} x machines x fractions x seed x stop conditions; per case: two runs from a cloned queue, one from a re-parsed trace, three filtered runs and up to three length-bounded runs; non-trivial when at least 2 events were simulated; distinct by hash of all inputs',
+        "floors": None,
+        "assumptions": COMMON_ASSUMPTIONS + ['no integration delays; traces are time-sorted; network delay <= 1 s', 'event times are compared as exact nanosecond offsets from the earliest trace event'],
+        "stall": 120,
+    },
 }
 
 # Coverage floors (quick): a quarter of what the workload reaches on the unchanged tree; a run that
@@ -193,6 +237,133 @@ QUICK_FLOORS = {
         "calls": 6000000,
         "combined_calls_with_2+_machines_active": 900000,
         "solo_comparisons": 20000000
+    },
+    "C06": {
+        "draws_enumerated": 5000000000,
+        "framework_probes": 100000,
+        "probability_one_vectors": 60,
+        "vectors_on_the_2^-23_grid_checked_exactly": 300,
+        "vectors_summing_to_exactly_one": 200,
+        "vectors_with_end_target": 200,
+        "vectors_with_residual": 300,
+        "vectors_with_signal_target": 200
+    },
+    "C14": {
+        "events_checked": 6000000,
+        "runs_filter_client=false_network=false": 40000,
+        "runs_filter_client=false_network=true": 40000,
+        "runs_filter_client=true_network=false": 20000,
+        "runs_filter_client=true_network=true": 20000,
+        "runs_via_sim": 40000,
+        "runs_via_sim_advanced": 80000,
+        "runs_with_client_and_server_event_at_same_instant": 20000,
+        "runs_with_zero_delay": 20000,
+        "traces_with_burst_of_3+_identical_stamps": 40000
+    },
+    "C15": {
+        "events_checked": 10000000,
+        "normal_packets_received": 1000000,
+        "packets_delayed_beyond_the_network_delay": 100000,
+        "padding_packets_received_by_peer": 400000,
+        "runs_cut_by_iteration_bound": 8000,
+        "runs_that_ended_by_themselves": 90000,
+        "runs_with_aggregate_delay": 10000,
+        "runs_with_packets_delayed_beyond_network_delay": 8000,
+        "runs_with_padding_received_by_peer": 40000
+    },
+    "C16": {
+        "actions_cancelled": 10000,
+        "actions_fired_when_due": 10000000,
+        "actions_logged": 20000000,
+        "actions_superseded": 4000000,
+        "actions_superseded_at_the_instant_they_were_due": 700000,
+        "actions_with_zero_timeout": 5000000,
+        "block_actions_applied_before_an_earlier_event": 2000,
+        "block_actions_shorter_not_replacing": 1000000,
+        "block_updates_longer_bypass": 500000,
+        "block_updates_longer_nobypass": 500000,
+        "block_updates_replace_bypass": 1000000,
+        "block_updates_replace_nobypass": 1000000,
+        "blocks_ended_at_expiry": 3000000,
+        "blocks_started": 5000000,
+        "blocks_with_zero_duration": 1000000,
+        "bypass_escapes_accepted": 100000,
+        "events_checked": 30000000,
+        "fired_actions_reported": 10000000,
+        "timer_begins_matched": 700000,
+        "timer_updates_at_the_instant_of_expiry": 70000,
+        "timer_updates_shorter_not_replacing": 60000,
+        "timer_updates_with_zero_duration": 100000,
+        "timers_cancelled": 1000,
+        "timers_ended_at_expiry": 200000,
+        "timers_started": 200000,
+        "timers_superseded": 400000,
+        "tunnel_sent_judged_during_blocking": 200000
+    },
+    "C17": {
+        "actions_cancelled": 50000,
+        "actions_fired_when_due": 10000000,
+        "actions_logged": 10000000,
+        "actions_superseded": 2000000,
+        "actions_superseded_at_the_instant_they_were_due": 400000,
+        "actions_with_zero_timeout": 3000000,
+        "block_actions_shorter_not_replacing": 800000,
+        "block_updates_longer_bypass": 300000,
+        "block_updates_longer_nobypass": 300000,
+        "block_updates_replace_bypass": 700000,
+        "block_updates_replace_nobypass": 700000,
+        "blocks_ended_at_expiry": 2000000,
+        "blocks_started": 3000000,
+        "blocks_with_zero_duration": 1000000,
+        "bypass_escapes_accepted": 100000,
+        "events_checked": 20000000,
+        "fired_actions_reported": 10000000,
+        "timer_begins_matched": 700000,
+        "timer_updates_at_the_instant_of_expiry": 70000,
+        "timer_updates_shorter_not_replacing": 50000,
+        "timer_updates_with_zero_duration": 100000,
+        "timers_cancelled": 7000,
+        "timers_ended_at_expiry": 200000,
+        "timers_started": 200000,
+        "timers_superseded": 400000,
+        "tunnel_sent_judged_during_blocking": 100000
+    },
+    "C18": {
+        "actions_cancelled": 9000,
+        "actions_fired_when_due": 2000000,
+        "actions_logged": 10000000,
+        "actions_superseded": 500000,
+        "actions_superseded_at_the_instant_they_were_due": 100000,
+        "actions_with_zero_timeout": 800000,
+        "block_actions_shorter_not_replacing": 100000,
+        "block_updates_longer_bypass": 30000,
+        "block_updates_longer_nobypass": 30000,
+        "block_updates_replace_bypass": 70000,
+        "block_updates_replace_nobypass": 70000,
+        "blocks_ended_at_expiry": 200000,
+        "blocks_started": 300000,
+        "blocks_with_zero_duration": 90000,
+        "bypass_escapes_accepted": 1000,
+        "events_checked": 20000000,
+        "fired_actions_reported": 2000000,
+        "timer_begins_matched": 8000000,
+        "timer_updates_at_the_instant_of_expiry": 1000000,
+        "timer_updates_shorter_not_replacing": 500000,
+        "timer_updates_with_zero_duration": 1000000,
+        "timers_cancelled": 40000,
+        "timers_ended_at_expiry": 3000000,
+        "timers_started": 3000000,
+        "timers_superseded": 4000000,
+        "tunnel_sent_judged_during_blocking": 1000
+    },
+    "C19": {
+        "distinct_interleavings_per_shard": 20000,
+        "events_simulated": 4000000,
+        "filtered_runs_compared": 100000,
+        "length_bounded_runs_compared": 60000,
+        "run_pairs_compared": 50000,
+        "runs_with_explicit_pps": 20000,
+        "runs_with_pps_above_u32": 10000
     }
 }
 
